@@ -15,12 +15,14 @@ RULE = (
     "contents = valid and invalid programs (corpus statements and files, statement pool, E-TOK trees, hand-built error "
     "layouts: error on first / last line, span across blank lines, inside a multi-line string, after a with-macro) x "
     "newline convention {LF, CRLF, CR} x final newline {yes, no} x {ASCII, non-ASCII identifier, non-ASCII string and "
-    "comment, error on a non-ASCII line}; x every process environment reachable in this image (C.UTF-8; C with default "
+    "comment, error on a non-ASCII line}; plus 8 characters that str.splitlines() takes for line ends (FF, VT, FS, GS, RS, "
+    "NEL, LS, PS) in 7 legal places before 10 tails (non-ASCII text, errors), and f-string debug fields before the same "
+    "tails; x every process environment reachable in this image (C.UTF-8; C with default "
     "coercion; C with coercion and UTF-8 mode off = ASCII; POSIX -X utf8; PYTHONUTF8=1). Oracle: parse_file(tmp) and "
     "parse_string(text, 'exec') give the same tree dump with positions or the same (class, message, line, column, end, "
     "text); only the file name may differ. Non-trivial = (content, environment) pairs evaluated (distinct)."
 )
-BOUND = {"quick": "about 2.5k contents x 5 environments", "thorough": "about 40k contents x 5 environments"}
+BOUND = {"quick": "about 3.7k contents x 5 environments", "thorough": "about 40k contents x 5 environments"}
 ASSUMPTIONS = [
     "locale -a offers only C, C.utf8 and POSIX in this image: a Latin-1 locale cannot be started; the ASCII configuration "
     "exercises the same code path (open() without an explicit encoding would use the locale's)",
@@ -68,6 +70,16 @@ def contents(tier: str) -> list[str]:
                 out.setdefault(t, None)
                 if t.endswith(nl):
                     out.setdefault(t[: -len(nl)], None)
+    # characters that str.splitlines() takes for line ends, in legal places, before non-ASCII text or an error; f-string
+    # debug fields (the parser asks the line table for their text) before text on other lines
+    from ..explore import layout
+
+    for _, t in layout.separators():
+        out.setdefault(t, None)
+    for pre in ("f'{a=}'\n", "print(f'''{a =\n}''', f'{b=!r:>{w}}')\n"):
+        for tail in layout.SEP_TAILS:
+            out.setdefault(pre + tail, None)
+            out.setdefault(pre + "\n# c\n" + tail + "z = 1\n", None)
     return list(out)
 
 
